@@ -263,7 +263,7 @@ def graphObs (r : GR) (o : Obs) : Except String GR :=
             let wasBound := r.s.bound d
             let e : Ev := if !r.s.running then .envSeal d x else
               match p.g.producer d with
-              | some (v, k) => .seal v k x
+              | some (v, k) => .sealBy v k x
               | none => .envSeal d x
             do let r' ← r'.ev e s!"data {d} sealed with {showOV x} by thread {t}"
                pure (if wasBound then { r' with owedD := t :: r'.owedD } else r')
